@@ -917,16 +917,17 @@ def _half(ctx):
     prog = ctx.prog
     ctx.rule("R-C09-5", floor=4, what="half hystereses count 1/2 in all copies of the damage formula; N copies agree")
     sites = []
-    init = prog.func(DC + "DamageCalculatorPRAM.__init__")
-    glf = prog.func(DC + "DamageCalculatorPRAM.get_lifetime_functions")
-    loop = prog.func(DP + "P_RAJ._compute_crack_opening_loop")
-    for fi in (init, glf, loop):
+    mods = {DC.rstrip(":"), DP.rstrip(":")}
+    fis = [fi for k, fi in sorted(prog.functions.items()) if fi.module.name in mods and fi.parent is None]
+    for fi in fis:
         for s in walk_function(fi.node, include_nested=True):
             if isinstance(s, ast.Assign) and isinstance(s.value, ast.Call) and call_name(s.value) == "np.where" and \
-                    "is_closed_hysteresis" in norm_text(s.value.args[0]):
+                    len(s.value.args) == 3 and "is_closed_hysteresis" in norm_text(s.value.args[0]):
                 sites.append((fi, s))
-    if len(sites) != 3:
-        raise AnalysisError("expected three copies of the damage formula, found %d" % len(sites))
+    classes = {fi.cls.name if fi.cls is not None else fi.key for fi, _ in sites}
+    if len(sites) < 2 or len(classes) < 2:
+        raise AnalysisError("the damage formula (closed: 1/N, half: 0.5/N) was found in %d place(s) of %d class(es); both the P_RAM "
+                            "calculator and the P_RAJ crack-opening loop have one" % (len(sites), len(classes)))
     for fi, s in sites:
         c, a, b = s.value.args
 
@@ -946,22 +947,37 @@ def _half(ctx):
         else:
             ctx.violated(fi, s, "damage formula is where(closed, %s, %s); closed hystereses count 1/N and half hystereses 0.5/N" %
                          (norm_text(a), norm_text(b)))
-    # the two copies of N
+    # the copies of N (constructor / shifted curve of N_max_bearable) agree up to the reference point; one shared copy is fine
+    from ..astutil import inline_single_defs
     ns = []
-    for fi in (init, glf):
+    for fi in [f_ for f_ in fis if f_.module.name == DC.rstrip(":")]:
         for s in walk_function(fi.node, include_nested=True):
             if isinstance(s, ast.Assign) and isinstance(s.targets[0], ast.Subscript) and const_value(s.targets[0].slice) == "N" \
                     and isinstance(s.value, ast.Call) and call_name(s.value) == "np.where":
                 ns.append((fi, s))
-    if len(ns) != 2:
-        raise AnalysisError("expected two copies of the P_RAM cycle formula, found %d" % len(ns))
-    a = norm_text(rename(ns[0][1].value, {"_P_RAM_Z": "REF"})).replace("self.REF", "REF")
-    loc_names = sorted({x.id for x in ast.walk(ns[1][1].value) if isinstance(x, ast.Name) and x.id not in ("np", "self")})
-    b = norm_text(rename(ns[1][1].value, {loc_names[0]: "REF"})) if len(loc_names) == 1 else norm_text(ns[1][1].value)
-    if a == b:
-        ctx.holds(ns[1][0], ns[1][1], "N formula in N_max_bearable == constructor's formula with P_RAM_Z -> reduced reference point")
-    else:
-        ctx.violated(ns[1][0], ns[1][1], "the two copies of the P_RAM cycle formula differ beyond the reference point: %s  vs  %s" % (a, b))
+    if not ns:
+        raise AnalysisError("the P_RAM cycle formula (column N) was not found")
+
+    def canon(fi, s):
+        owner = fi.node
+        for n_ in ast.walk(fi.node):
+            if isinstance(n_, ast.FunctionDef) and any(x_ is s for x_ in ast.walk(n_)):
+                owner = n_                       # innermost function containing the statement
+        cmp_ = s.value.args[0]
+        ref = cmp_.comparators[0] if isinstance(cmp_, ast.Compare) and len(cmp_.ops) == 1 else None
+        if ref is None:
+            return norm_text(inline_single_defs(owner, s.value))
+        marked = parse_expr(norm_text(s.value).replace(norm_text(ref), "REF"))
+        return norm_text(inline_single_defs(owner, marked, keep=("REF",)))
+    first = canon(*ns[0])
+    if len(ns) == 1:
+        ctx.holds(ns[0][0], ns[0][1], "one shared copy of the P_RAM cycle formula, reference point passed in")
+    for fi, s in ns[1:]:
+        b_ = canon(fi, s)
+        if first == b_:
+            ctx.holds(fi, s, "N formula == the first copy with the reference point replaced (P_RAM_Z -> reduced reference point)")
+        else:
+            ctx.violated(fi, s, "the copies of the P_RAM cycle formula differ beyond the reference point: %s  vs  %s" % (first, b_))
 
 
 # =========================================================================== variants
